@@ -17,8 +17,9 @@ import json;m=json.load(open('$d/meta.json'))['detection']
 p='$prop'
 # if the primary property is documented as not catching it, use the first property that does
 if p in m and m[p].startswith('not caught'):
-    print(next(k for k,v in m.items() if v.startswith('caught')))
+    print(next((k for k,v in m.items() if v.startswith('caught')), 'NONE'))
 else: print(p)")
+  if [ "$extra" = "NONE" ]; then echo "$id not caught by any check, by argument (see meta.json)" | tee -a $out; continue; fi
   git -C $REPO_COPY apply $d/patch.diff || { echo "$id APPLY-FAILED" | tee -a $out; continue; }
   r=$(VERIF_RUNS=${REG_RUNS:-1600} ./check $extra quick 2>&1); rc=$?
   echo "$id property=$extra exit=$rc $(echo "$r" | grep -E '^violation in run' | head -1 | cut -c1-160)" | tee -a $out
